@@ -35,7 +35,7 @@ REACH = [("yamlpath/merger/merger.py", "_merge_dicts,_merge_lists,_merge_simple_
          ("yamlpath/merger/merger.py", "_insert_dict,_insert_list,_insert_set,_insert_scalar,merge_with", "Merger._insert_* / merge_with"),
          ("yamlpath/merger/mergerconfig.py", "hash_merge_mode,array_merge_mode,aoh_merge_mode,set_merge_mode,aoh_merge_key,_prepare_user_rules", "MergerConfig modes")]
 SIZES = {"quick": 200000, "thorough": 4000000}
-REQUIRED_COUNTERS = ["model_decided", "documented_error_cases", "rules_cases", "ini_cases", "twin_rule_cases", "nested_rule_cases", "sequence_cases", "anchored_rule_cases"]
+REQUIRED_COUNTERS = ["model_decided", "documented_error_cases", "rules_cases", "ini_cases", "twin_rule_cases", "nested_rule_cases", "sequence_cases", "anchored_rule_cases", "merge_key_lhs_cases"]
 HASHES, ARRAYS, AOH, SETS = ["deep", "left", "right"], ["all", "left", "right", "unique"], \
     ["all", "deep", "left", "right", "unique"], ["left", "right", "unique"]
 ALL_COMBOS = list(itertools.product(HASHES, ARRAYS, AOH, SETS))
@@ -338,6 +338,46 @@ def anchored_rule_case(ctx, rng):
             "summary": "with the rule: %r ; with %s=%s as the default: %r" % (outs[0], which, mode, outs[1])})
 
 
+def merge_key_lhs_case(ctx, rng):
+    """The left-hand document uses `<<` merge keys and the right-hand document names, under an inheriting mapping, a key
+    that mapping only inherits: the merge may override it there, but the anchored source mapping - which the right-hand
+    document does not name - keeps its content (frame condition only; the merged value itself is not modelled)."""
+    from vf.model import edits as E
+    ltext = gd.gen_merge_doc(rng)
+    try:
+        L = yp.load(ltext)
+    except yp.LoadError:
+        return
+    inheritors = [k for k, v in L.items() if isinstance(v, dict) and getattr(v, "merge", None)]
+    if not inheritors:
+        return
+    tgt = rng.choice(inheritors)
+    inherited = [k for k in L[tgt].keys() if k not in [kk for kk, _ in yp.own_items(L[tgt])]]
+    if not inherited:
+        return
+    keys = [rng.choice(inherited)] + rng.sample(gd.MERGE_KEYS + ["extra"], rng.randrange(0, 3))
+    rtext = "{%s: {%s}}" % (tgt, ", ".join("%s: %s" % (k, rng.choice(["{b: 2}", "[y]", "{q: 7, z: 1}", "[1, 2, 3]", "5"])) for k in dict.fromkeys(keys)))
+    combo = rng.choice([c for c in ALL_COMBOS if c[0] == "deep"])     # (under hashes=left|right the root itself is kept / replaced whole)
+    case = {"lhs": ltext, "rhs": rtext, "policies": dict(hashes=combo[0], arrays=combo[1], aoh=combo[2], sets=combo[3]), "delivery": "args"}
+    before = {k: E.image(v) for k, v in L.items() if k != tgt}
+    ctx.evaluations += 1
+    ctx.counters["merge_key_lhs_cases"] = ctx.counters.get("merge_key_lhs_cases", 0) + 1
+    ctx.mark_nontrivial([ltext, rtext, combo, "merge-key-lhs"])
+    m = Merger(LOG, L, MergerConfig(LOG, SimpleNamespace(hashes=combo[0], arrays=combo[1], aoh=combo[2], sets=combo[3])))
+    try:
+        m.merge_with(yp.load(rtext))
+    except (MergeException, YAMLPathException):
+        return
+    except Exception as e:
+        ctx.violation("crash/%s@%s/merge-key-lhs" % (type(e).__name__, where(e)), {"case": case, "summary": repr(e)[:150]})
+        return
+    for k, img in before.items():
+        if k not in m.data or E.image(m.data[k]) != img:
+            ctx.violation("merge-key-lhs/content-not-named-by-rhs-changed", {"case": case, "summary": "%r changed: %r" % (
+                k, E.diff(img, E.image(m.data[k]))[:3] if k in m.data else "removed")})
+            return
+
+
 def nested_paths(t, path=""):
     out = []
     if t[0] == "map":
@@ -374,6 +414,7 @@ def run_shard(ctx):
         if rng.random() < 0.04:
             for _ in range(6):
                 anchored_rule_case(ctx, rng)
+                merge_key_lhs_case(ctx, rng)
             continue
         if rng.random() < 0.08:
             lt, rt, tpath = twin_pair(rng)
